@@ -112,6 +112,15 @@ def main():
                         break
                     h.cmd("step")
                     h.wait_quiescent(20)
+                for k in cfg.get("lstops", []):
+                    # a pause requested by a TIME_CHANGED subscriber (stop() on the run thread), then resumed
+                    if h.sim.run_state.name == "ENDED":
+                        break
+                    h.stop_from_time_changed(k)
+                    h.cmd("start")
+                    h.wait_quiescent(30)
+                if cfg.get("lstops") and getattr(h, "_lstop", None) is not None:
+                    h._lstop.left = 0
                 for k in cfg["pauses"]:
                     if h.sim.run_state.name == "ENDED":
                         break
